@@ -762,6 +762,7 @@ func locksExtra(t *tr) string {
 	sort.Slice(scanned, func(i, j int) bool { return scanned[i].PkgPath < scanned[j].PkgPath })
 	b.WriteString(locksClosureFacts(t, scanned))
 	b.WriteString(locksHandoverSites(t, scanned))
+	b.WriteString(locksPkgVars(t, scanned))
 	b.WriteString(locksSubstr(t, loaded[locksPostprocPkg]))
 	return b.String()
 }
